@@ -231,6 +231,19 @@ claim("C07", "other",
       "linear-form extraction from MIR + grid evaluation of extracted admission/bound tables + who-may-call + event-order rules",
       "DESIGN.md §3 C07")
 
+claim("C08", "other",
+      "Sibling agreement of the hand-written codecs extracted from MIR: ordered items written by serialize vs ordered decodes "
+      "and the field each lands in, for 7 struct/enum codec pairs, the integer endianness pairs and the digest loop; "
+      "byte->variant decoders vs enum discriminants for the six tagged enums, with an error exit for unknown bytes; the "
+      "linear form of serialized_len vs the multiset of bytes and nested lengths (with sources) written, for 27 (type, "
+      "variant) forms; provenance of Delta.serialized_len; block-threshold agreement over the boundary grid; and equality of "
+      "the extracted writer layout with the reference layout of the pinned tree (catches a consistent reorder of writer and "
+      "reader, which no round-trip test can see).",
+      "NOT decided: byte-level round-trip equality for all inputs and agreement with an independently written implementation "
+      "(there is no second implementation to analyse statically). The reference layout was read off the pinned tree.",
+      "wire-table extraction from MIR (writer/reader/length siblings) + tag-table comparison + reference-layout comparison",
+      "DESIGN.md §3 C08")
+
 ALL = ["C%02d" % i for i in range(1, 21)]
 PENDING_REASON = "check under construction in this session (rules designed in DESIGN.md §3, not yet armed)"
 
